@@ -1,18 +1,217 @@
-(* C11 — cutting. Theorem set extended in later commits. *)
+(* C11 - cutting (thrift generic Value.MarshalTo). Statements only; proofs are in proofs/ThriftCutProofs.v.
+   project = spec-level projection of the decoded value; cut = byte-level walker mirroring marshalTo;
+   pe = "these two sub-descriptors are the same *TypeDescriptor" (the raw-copy shortcut), an arbitrary parameter. *)
 From Coq Require Import ZArith List Bool Lia.
-From DG Require Import ProtoWireRef ThriftWire ThriftWireProofs ThriftCut.
+From DG Require Import ProtoWireRef ThriftWire ThriftWireProofs ThriftCut ThriftCutProofs.
 Import ListNotations.
 Local Open Scope Z_scope.
 
-(* cutting with the identical (same) descriptor reproduces the input, whatever the other options say *)
+(* (1) the byte-level algorithm (struct loop with Skip of unknown / untargeted fields, raw copy of read.Buf[e:s] on
+   pointer-equal sub-descriptors, handleUnsets at STOP, list / map element loops) yields exactly the encoding of the
+   projection, consumes exactly the source value and fails with the same error class - all values, descriptors, options *)
+Theorem C11_cut_refines_project :
+  forall d o pe fuel from to v r,
+  wf v = true -> (depth v <= max_skip_depth)%nat -> conf d fuel from v = true ->
+  cut d o pe false fuel from to (encode v ++ r) =
+  match project d o pe fuel from to v with COk v' => COk (encode v', r) | CErr c => CErr c end.
+Proof. exact cut_refines_project. Qed.
+Print Assumptions C11_cut_refines_project.
+
+(* (2) identical descriptors reproduce the input: for every fully conforming value, whether or not the implementation
+   notices that the descriptors are the same (any pe) *)
 Theorem C11_identical_descriptor_reproduces_input :
-  forall d o fuel a fs, o_shared o = true ->
-  project d o (S fuel) (TStruct a) (TStruct a) (VStruct fs) = COk (VStruct fs).
-Proof. intros d o fuel a fs Hs. cbn [project]. rewrite Hs, Z.eqb_refl. reflexivity. Qed.
+  forall d o pe fuel t v, full d o fuel t v = true -> project d o pe fuel t t v = COk v.
+Proof. exact project_id. Qed.
 Print Assumptions C11_identical_descriptor_reproduces_input.
 
-(* and the re-encoded result decodes back (the output is a well-formed value) *)
-Theorem C11_output_wellformed_roundtrip :
-  forall v, wf v = true -> forall dd r, (depth v <= dd)%nat -> decode dd (type_of v) (encode v ++ r) = Some (v, r).
-Proof. exact decode_encode. Qed.
-Print Assumptions C11_output_wellformed_roundtrip.
+Theorem C11_identical_descriptor_bytes :
+  forall d o pe fuel t v,
+  wf v = true -> (depth v <= max_skip_depth)%nat -> conf d fuel t v = true -> full d o fuel t v = true ->
+  cut d o pe false fuel t t (encode v) = COk (encode v, []).
+Proof.
+  intros d o pe fuel t v Hw Hd Hc Hf. rewrite <- (app_nil_r (encode v)) at 1.
+  rewrite cut_refines_project by assumption. rewrite project_id by exact Hf. reflexivity.
+Qed.
+Print Assumptions C11_identical_descriptor_bytes.
+
+(* (3) exactness: at a struct level the output is kept ++ filled where kept = the source fields whose id is declared
+   by BOTH descriptors, in source order (a subsequence of the source ids), each value being the projection of the
+   source value; filled = the zero-filled target fields (none when checking is disabled); required target fields
+   are all present when checking is enabled *)
+Theorem C11_project_struct_exact :
+  forall d o pe f a b ffs tfs fs out,
+  struct_def d a = Some ffs -> struct_def d b = Some tfs -> tys_ok tfs -> pe (TStruct a) (TStruct b) = false ->
+  project d o pe (S f) (TStruct a) (TStruct b) (VStruct fs) = COk (VStruct out) ->
+  exists kept,
+    Forall2 (fun p q => fst q = fst p /\ exists ff tf, find_fld (fst p) ffs = Some ff /\ find_fld (fst p) tfs = Some tf /\
+                                                   project d o pe f (fld_ty ff) (fld_ty tf) (snd p) = COk (snd q))
+            (filter (fun p => in_both ffs tfs (fst p)) fs) kept /\
+    map fst kept = filter (in_both ffs tfs) (map fst fs) /\
+    out = kept ++ (if o_not_check_req o then []
+                   else map (fun tf => (fld_id tf, zero_or (fld_ty tf))) (filter (is_filled o (map fst kept)) (sort_flds tfs))) /\
+    (o_not_check_req o = false -> forall tf, In tf tfs -> fld_req tf = 1 -> In (fld_id tf) (map fst kept)).
+Proof. exact project_struct_exact. Qed.
+Print Assumptions C11_project_struct_exact.
+
+Theorem C11_project_scalar_unchanged :
+  forall d o pe fuel from c v v', project d o pe fuel from (TScalar c) v = COk v' -> v' = v.
+Proof. exact project_scalar_unchanged. Qed.
+Print Assumptions C11_project_scalar_unchanged.
+
+Theorem C11_project_list_elementwise :
+  forall d o pe f fe te et es v',
+  pe fe te = false -> project d o pe (S f) (TList fe) (TList te) (VList et es) = COk v' ->
+  exists l, v' = VList et l /\ Forall2 (fun x x' => project d o pe f fe te x = COk x') es l.
+Proof. exact project_list_exact. Qed.
+Print Assumptions C11_project_list_elementwise.
+
+Theorem C11_project_map_entrywise :
+  forall d o pe f fk tk fe te kt vt es v',
+  pe fe te && pe fk tk = false -> project d o pe (S f) (TMap fk fe) (TMap tk te) (VMap kt vt es) = COk v' ->
+  exists l, v' = VMap kt vt l /\
+    Forall2 (fun p q => project d o pe f fk tk (fst p) = COk (fst q) /\ project d o pe f fe te (snd p) = COk (snd q)) es l.
+Proof. exact project_map_exact. Qed.
+Print Assumptions C11_project_map_entrywise.
+
+(* (4) the output is a well-formed value: it decodes back to the projection *)
+Theorem C11_output_wellformed :
+  forall d o, defs_okb d = true -> forall pe fuel from to v v',
+  wf v = true -> project d o pe fuel from to v = COk v' ->
+  wf v' = true /\ forall dd r, (depth v' <= dd)%nat -> decode dd (type_of v') (encode v' ++ r) = Some (v', r).
+Proof.
+  intros d o Hd pe fuel from to v v' Hw Hp. pose proof (project_wf d o Hd pe fuel from to v v' Hw Hp) as Hw'.
+  split; [exact Hw'|]. intros dd r Hdd. apply decode_encode; assumption.
+Qed.
+Print Assumptions C11_output_wellformed.
+
+(* (5) a required target field that is not produced is an error exactly when requiredness checking is enabled
+   (and that is the only error the STOP handling can raise) *)
+Theorem C11_missing_required_iff_checking :
+  forall d o pe f a b ffs tfs fs kept,
+  struct_def d a = Some ffs -> struct_def d b = Some tfs -> tys_ok tfs -> pe (TStruct a) (TStruct b) = false ->
+  proj_fields o (project d o pe f) ffs tfs fs = COk kept ->
+  (project d o pe (S f) (TStruct a) (TStruct b) (VStruct fs) = CErr 3 <->
+   o_not_check_req o = false /\ exists tf, In tf tfs /\ fld_req tf = 1 /\ ~ In (fld_id tf) (map fst kept)) /\
+  (forall c, project d o pe (S f) (TStruct a) (TStruct b) (VStruct fs) = CErr c -> c = 3).
+Proof. exact project_missing_required. Qed.
+Print Assumptions C11_missing_required_iff_checking.
+
+(* (6) default-requiredness target fields that the source does not provide are zero-filled exactly under WriteDefault *)
+Theorem C11_default_zero_fill_iff_write_default :
+  forall d o pe f a b ffs tfs fs out tf,
+  struct_def d a = Some ffs -> struct_def d b = Some tfs -> tys_ok tfs -> pe (TStruct a) (TStruct b) = false ->
+  project d o pe (S f) (TStruct a) (TStruct b) (VStruct fs) = COk (VStruct out) ->
+  o_not_check_req o = false ->
+  In tf tfs -> fld_req tf = 0 -> ~ In (fld_id tf) (filter (in_both ffs tfs) (map fst fs)) ->
+  (In (fld_id tf) (map fst out) <-> o_write_default o = true) /\
+  (o_write_default o = true -> In (fld_id tf, zero_or (fld_ty tf)) out).
+Proof. exact project_default_fill. Qed.
+Print Assumptions C11_default_zero_fill_iff_write_default.
+
+(* (7) the raw-copy shortcut is sound: whichever sub-descriptor pairs are recognised as identical (any two predicates
+   that only hold for equal descriptors - pointer equality inside one parse, none across parses), a fully conforming
+   value is projected onto a kind-compatible target in the same way; in particular as by the plain recursive walk *)
+Theorem C11_shortcut_sound :
+  forall d o pe1 pe2,
+  (forall a b, pe1 a b = true -> a = b) -> (forall a b, pe2 a b = true -> a = b) ->
+  forall fuel from to v, compat d fuel from to = true -> full d o fuel from v = true ->
+  project d o pe1 fuel from to v = project d o pe2 fuel from to v.
+Proof. exact shortcut_sound. Qed.
+Print Assumptions C11_shortcut_sound.
+
+Lemma pe_parse_sound s a b : pe_parse s a b = true -> a = b.
+Proof.
+  destruct a, b; cbn [pe_parse]; try discriminate.
+  - intros H. apply Z.eqb_eq in H. congruence.
+  - intros H. apply andb_true_iff in H. destruct H as [_ H]. apply Z.eqb_eq in H. congruence.
+Qed.
+Theorem C11_pointer_equality_cannot_change_result :
+  forall d o s fuel from to v, compat d fuel from to = true -> full d o fuel from v = true ->
+  project d o (pe_parse s) fuel from to v = project d o pe_none fuel from to v.
+Proof. intros. apply shortcut_sound; auto; [apply pe_parse_sound|discriminate]. Qed.
+Print Assumptions C11_pointer_equality_cannot_change_result.
+
+(* ---- non-vacuity and the recorded defect ---- *)
+Definition ex_defs : defs :=
+  [ [(1, 0, TScalar T_I32); (2, 1, TStruct 1); (3, 2, TList (TStruct 1))];     (* S0 *)
+    [(1, 0, TScalar T_I32); (5, 0, TScalar T_STRING)];                        (* S1 *)
+    [(2, 1, TStruct 1); (3, 2, TList (TStruct 3)); (9, 0, TScalar T_I64)];     (* S2: variant of S0 *)
+    [(5, 0, TScalar T_STRING)] ].                                             (* S3: variant of S1 *)
+Definition ex_opts : cut_opts := {| o_disallow_unknown := false; o_not_check_req := false; o_write_default := true; o_opt_bitmap := false |}.
+Definition ex_val : tval :=
+  VStruct [(1, VI32 7); (2, VStruct [(1, VI32 1); (5, VString [104])]); (3, VList T_STRUCT [VStruct [(1, VI32 2); (5, VString [])]])].
+
+Example ex_hyps : defs_okb ex_defs = true /\ wf ex_val = true /\ conf ex_defs 5 (TStruct 0) ex_val = true /\
+                  full ex_defs ex_opts 5 (TStruct 0) ex_val = true /\ compat ex_defs 5 (TStruct 0) (TStruct 2) = true.
+Proof. vm_compute. repeat split; reflexivity. Qed.
+
+(* S0 -> S2: field 1 dropped, shared struct S1 under field 2 raw-copied, list elements cut to S3, field 9 zero-filled *)
+Example ex_cut :
+  project ex_defs ex_opts (pe_parse true) 5 (TStruct 0) (TStruct 2) ex_val =
+  COk (VStruct [(2, VStruct [(1, VI32 1); (5, VString [104])]); (3, VList T_STRUCT [VStruct [(5, VString [])]]); (9, VI64 0)]).
+Proof. vm_compute. reflexivity. Qed.
+
+(* finding 1101: the unrepaired `if from == to { return nil }` (quirk = true) yields an empty output for the identical
+   descriptor, where the property (and the repaired code) demand the input itself *)
+Example C11_quirk_1101_refuted :
+  cut ex_defs ex_opts (pe_parse true) true 5 (TStruct 0) (TStruct 0) (encode ex_val) = COk ([], encode ex_val) /\
+  cut ex_defs ex_opts (pe_parse true) false 5 (TStruct 0) (TStruct 0) (encode ex_val) = COk (encode ex_val, []).
+Proof. vm_compute. split; reflexivity. Qed.
+
+(* ================= Protobuf half (proto/generic Value.MarshalTo) ================= *)
+From DG Require Import CaseFormat ProtoCut ProtoCutProofs.
+
+(* at every message level the output holds exactly the source fields whose NUMBER is declared by both schemas, in
+   source order; scalar-kind fields keep their raw bytes, message-kind fields hold the projection of their payload *)
+Theorem C11_proto_fields_exact :
+  forall dis rec ffs tfs fs out, pproj_fields dis rec ffs tfs fs = COk out ->
+  Forall2 (fun f t => match f with WF num wt raw =>
+             exists ff tf, pfind num ffs = Some ff /\ pfind num tfs = Some tf /\ pf_kind ff = pf_kind tf /\
+               ((pf_kind ff <> K_MESSAGE /\ t = TLeaf num wt raw) \/
+                (pf_kind ff = K_MESSAGE /\ wt = 2 /\ exists kids, rec (pf_sub ff) (pf_sub tf) (payload raw) = COk kids /\ t = TMsg num wt kids)) end)
+          (filter (fun f => p_in_both ffs tfs (wf_num f)) fs) out.
+Proof. exact pproj_fields_exact. Qed.
+Print Assumptions C11_proto_fields_exact.
+
+Theorem C11_proto_numbers_are_intersection_in_source_order :
+  forall dis rec ffs tfs fs out, pproj_fields dis rec ffs tfs fs = COk out ->
+  map tree_num out = filter (p_in_both ffs tfs) (map wf_num fs).
+Proof. exact pproj_fields_numbers. Qed.
+Print Assumptions C11_proto_numbers_are_intersection_in_source_order.
+
+Theorem C11_proto_unknown_is_error_when_disallowed :
+  forall dis rec ffs tfs fs, (exists f, In f fs /\ pfind (wf_num f) ffs = None) -> dis = true ->
+  forall out, pproj_fields dis rec ffs tfs fs <> COk out.
+Proof. exact pproj_fields_unknown. Qed.
+Print Assumptions C11_proto_unknown_is_error_when_disallowed.
+
+(* the generic wire decoder the check judges with reads back every canonically encoded field sequence *)
+Theorem C11_proto_wire_decoder_roundtrip :
+  forall fs, Forall wfield_ok fs -> forall fuel, (length fs < fuel)%nat -> wire_fields fuel (flat_map enc_wfield fs) = Some fs.
+Proof. exact wire_fields_enc. Qed.
+Print Assumptions C11_proto_wire_decoder_roundtrip.
+
+(* the byte-level walker (mirror of marshalTo: ConsumeTag, Skip per wire type, ReadLength, speculative length, inner errors
+   propagated) computes exactly the encoding of the projected wire tree - tags re-encoded, lengths recomputed - for every
+   message whose projection exists, at every nesting depth *)
+From DG Require Import ProtoCutRefine.
+Theorem C11_proto_cut_refines_projection :
+  forall d dis fuel fi ti bs forest, small bs -> pproject d dis fuel fi ti bs = COk forest ->
+  pbcut d dis false fuel fi ti bs 0 = (0, [], enc_forest forest).
+Proof. exact pbcut_whole_message. Qed.
+Print Assumptions C11_proto_cut_refines_projection.
+
+(* F{x=7, m={a=10, b="x"}} cut from FU{1:int32, 2:InU{2:string}, 7:string} to itself with DisallowUnknown: the nested
+   field 1 is unknown -> the specification demands an error; the unrepaired walker (quirk) drops the inner error *)
+Definition ex_pdefs : pdefs := [ [(1, 5, -1); (2, 11, 1); (7, 9, -1)]; [(2, 9, -1)] ].
+Definition ex_pmsg : list Z := [8; 7; 18; 5; 8; 10; 18; 1; 120].
+Example C11_proto_example_spec : pproject ex_pdefs true 10 0 0 ex_pmsg = CErr 1.
+Proof. vm_compute. reflexivity. Qed.
+Example C11_proto_example_allowed :
+  pproject ex_pdefs false 10 0 0 ex_pmsg = COk [TLeaf 1 0 [7]; TMsg 2 2 [TLeaf 2 2 [1; 120]]] /\
+  pbcut ex_pdefs false false 10 0 0 ex_pmsg 0 = (0, [], [8; 7; 18; 3; 18; 1; 120]).
+Proof. vm_compute. split; reflexivity. Qed.
+Example C11_quirk_1102_refuted :
+  fst (fst (pbcut ex_pdefs true false 10 0 0 ex_pmsg 0)) = 1 /\
+  pbcut ex_pdefs true true 10 0 0 ex_pmsg 0 <> pbcut ex_pdefs true false 10 0 0 ex_pmsg 0.
+Proof. vm_compute. split; [reflexivity|discriminate]. Qed.
